@@ -97,4 +97,5 @@ Proof.
     + left. apply SAME. reflexivity.
   - destruct (fresh_id s l0); [|discriminate]. inversion Hs; subst s'. cbn [sreg] in Hl'.
     left. rewrite (lookup_app_some _ _ _ _ Hl) in Hl'. inversion Hl'; reflexivity.
+  - destruct (_ && _); [|discriminate]. inversion Hs; subst s'. left. apply SAME. reflexivity.
 Qed.
